@@ -153,6 +153,11 @@ static void client (void *arg) {
 			struct cond *c = o->c ? &S.conds[o->c - 1] : NULL;
 			int r, mode = rt_held_by (S.mu, t);
 			ip++;
+			if (c && o->dl == 0 && !o->cn) {
+				/* no deadline, no cancel note: through the public wrapper (it must block until the condition holds and return with the mutex held) */
+				nsync_mu_wait (S.mu, c->f == 1 ? condf1 : condf2, c->arg, c->eq ? cond_eq : NULL);
+				r = 0;
+			} else
 			r = nsync_mu_wait_with_deadline (S.mu, c ? (c->f == 1 ? condf1 : condf2) : NULL, c ? c->arg : NULL, (c && c->eq) ? cond_eq : NULL,
 							 deadline (o->dl), o->cn ? S.note : NULL);
 			S.ret[t] = r;
@@ -168,6 +173,7 @@ static void client (void *arg) {
 			} else ip++;
 			S.picked[t] = 0;
 			if (o->x == 9) r = nsync_cv_wait_with_deadline_generic (S.cv, S.mu, g_lock, g_unlock, deadline (o->dl), o->cn ? S.note : NULL);
+			else if (o->dl == 0 && !o->cn) { nsync_cv_wait (S.cv, S.mu); r = 0; }      /* the public wrapper for "no deadline, no cancel note" */
 			else r = nsync_cv_wait_with_deadline (S.cv, S.mu, deadline (o->dl), o->cn ? S.note : NULL);
 			S.ret[t] = r;
 			if (S.picked[t] && r != 0) rt_violation ("O-ret", "a cv wait that a signal/broadcast had unlinked (consumed wake-up) returned %d instead of 0", r);
@@ -678,6 +684,15 @@ int main (int argc, char **argv) {
 		rp_print_ord (stdout);
 		printf ("MAXSLEEPS %d\n", maxsleeps);
 		return st.violations ? 1 : 0;
+	}
+	if (!strcmp (argv[1], "pb") && argc >= 5) {
+		/* every schedule with at most <bound> preemptions after the saved prefix (rp_explore_pb) */
+		FILE *f = fopen (argv[2], "r");
+		long v;
+		if (!f) { perror (argv[2]); return 2; }
+		v = rp_explore_pb (f, &h, atoi (argv[3]), atol (argv[4]), argc > 5 ? argv[5] : NULL, prop, victim_done, 6000);
+		printf ("MAXSLEEPS %d\n", maxsleeps);
+		return v ? 1 : 0;
 	}
 	if (!strcmp (argv[1], "from") && argc >= 5) {
 		/* continue a saved divergence prefix with random schedules */
